@@ -100,7 +100,8 @@ class ErrorHandling:
 
         expected = {}  # value: token
 
-        for token_name in self.expected_tokens:
+        # the parser lists them in the order of its tables, which is not the same in every process
+        for token_name in sorted(self.expected_tokens):
             value = getattr(self.lexer, token_name, None)
             if token_name == 'ID':
                 # a lot of other tokens could be ID
@@ -158,7 +159,11 @@ class ErrorHandling:
     def query_is_valid(self, tokens):
         # try to parse list of tokens
 
-        ast = self.parser.parse(iter(tokens))
+        try:
+            ast = self.parser.parse(iter(tokens))
+        except ParsingException:
+            # refused by a rule of the grammar: the made-up statement is not valid
+            return False
         return ast is not None
 
 
